@@ -9,8 +9,9 @@ GATES = ['pyclifford/circuit.py::CliffordGate.forward#generator_global', 'pyclif
 LOCAL_GATES = ['pyclifford/circuit.py::CliffordGate.forward#generator_local', 'pyclifford/circuit.py::CliffordGate.backward#generator_local',
                'pyclifford/circuit.py::CliffordGate.forward#map_local']
 LOCAL_STATE = ['pyclifford/paulialg.py::PauliList.rotate_by#mask_state', 'pyclifford/circuit.py::CliffordGate.forward#generator_local_state',
-               'pyclifford/circuit.py::CliffordGate.backward#generator_local_state']
-MASK_LEMMAS = ['mask_index', 'inq_exists', 'inq_member', 'expand_sums']
+               'pyclifford/circuit.py::CliffordGate.backward#generator_local_state', 'pyclifford/paulialg.py::PauliList.transform_by#mask_state',
+               'pyclifford/circuit.py::CliffordGate.forward#map_local_state']
+MASK_LEMMAS = ['mask_index', 'inq_exists', 'inq_member', 'expand_sums', 'split_acq', 'acqout_ext']
 CLASS_LAYER = [PA + 'Pauli.__matmul__#Pauli', PA + 'Pauli.__neg__', PA + 'Pauli.copy', PA + 'PauliList.copy',
                PA + 'PauliList.rotate_by#nomask', PA + 'PauliList.transform_by#nomask', PA + 'PauliList.rotate_by#mask', PA + 'PauliList.transform_by#mask', ST + 'CliffordMap.copy', ST + 'CliffordMap.compose',
                ST + 'CliffordMap.to_state#r', ST + 'CliffordMap.to_state#none', ST + 'StabilizerState.copy', ST + 'StabilizerState.to_map',
@@ -80,7 +81,7 @@ def C05(run):
     run.deductive(keys=[U + 'stabilizer_measure', U + 'stabilizer_project', U + 'map_to_state', U + 'clifford_rotate', ST + 'CliffordMap.to_state#r',
                         ST + 'CliffordMap.to_state#none', ST + 'StabilizerState.copy', ST + 'StabilizerState.measure#list',
                         ST + 'StabilizerState.postselect', 'pyclifford/circuit.py::MeasureLayer.forward', U + 'stabilizer_postselection', PA + 'PauliList.rotate_by#state', PA + 'PauliList.transform_by#state', GATES[3], GATES[4], GATES[5],
-                        U + 'stabilizer_projection_trace', U + 'mask', PA + 'PauliList.rotate_by#mask'] + LOCAL_STATE, lemmas=MEASURE_LEMMAS + MASK_LEMMAS)
+                        U + 'stabilizer_projection_trace', U + 'mask', PA + 'PauliList.rotate_by#mask', PA + 'PauliList.transform_by#mask'] + LOCAL_STATE, lemmas=MEASURE_LEMMAS + MASK_LEMMAS)
     run.bounded_check('c05_histories', _b().c05_histories, Nmax=3, walks=q(run, 45, 2500), steps=q(run, 10, 30))
     run.bounded_check('c06_measure', _b().c06_measure, Nmax=2, count=q(run, 25, 400), reps=q(run, 2, 5))
     return 'other', ('bounded: random histories from every constructor with the tableau invariant and dense validity checked after every '
